@@ -835,5 +835,26 @@ func c20RunUnderRace(kind, id string, parts []string) string {
 		os.WriteFile(keep, []byte(first), 0644)
 		fmt.Fprintf(os.Stderr, "C20: %d DATA RACE report(s) for case %s, first kept in %s\n", nrace, id, keep)
 	}
-	return fmt.Sprintf("%s race=%d", res, nrace)
+	sig := "-"
+	if nrace > 0 {
+		// signature of the first report: the first mosproxy frame of each side
+		var fr []string
+		want := false
+		for _, l := range strings.Split(first, "\n") {
+			t := strings.TrimSpace(l)
+			if strings.HasPrefix(t, "Write at") || strings.HasPrefix(t, "Read at") || strings.HasPrefix(t, "Previous") {
+				want = true
+				continue
+			}
+			if want && strings.Contains(t, "IrineSistiana/mosproxy/") && !strings.Contains(t, "verifharness") && strings.HasSuffix(t, ")") {
+				t = t[strings.LastIndex(t, "/")+1:]
+				fr = append(fr, strings.TrimSuffix(t, "()"))
+				want = false
+			}
+		}
+		if len(fr) > 0 {
+			sig = strings.Join(fr, "|")
+		}
+	}
+	return fmt.Sprintf("%s race=%d racesig=%s", res, nrace, sig)
 }
